@@ -12,7 +12,18 @@ structure St where
   kind : String := ""
   faulty : Bool := false
   live : List (Nat × Bool) := []     -- stream id, (shell) command already run on this handshake
+  seen : List Nat := []              -- stream ids that had an open in this case
+  tainted : List Nat := []           -- tcp/fwd stream ids that were RE-USED (see `reuseRacy`)
   deriving Repr
+
+/-- The exit and forward handlers tear a connection down BY STREAM ID from the old connection's read
+    loop (`defer h.closeConnection(ac.StreamID, …)`), asynchronously.  When a stream id is used again
+    (duplicate open, or re-open after close) that late teardown may remove the NEW connection, so
+    whether such a stream still echoes is a race in the code under test, not a key question: liveness
+    of a re-used tcp/fwd stream id is not predicted (`anyof`), its SAFETY part stays strict.  An
+    ingress never re-uses a stream id (C38); the udp handler's read loop does not remove by id, so udp
+    stays strict. -/
+def reuseRacy (kind : String) : Bool := kind == "tcp" || kind == "fwd"
 
 def St.find (s : St) (sid : Nat) : Option Bool := (s.live.find? (·.1 == sid)).map (·.2)
 def St.set (s : St) (sid : Nat) (used : Bool) : St :=
@@ -29,15 +40,17 @@ def step (s : St) : List String → St × String
     if s.kind = "" ∨ (mode ≠ "fresh" ∧ mode ≠ "same") then (s, "bad-op") else
     match sid.toNat? with
     | some sid =>
-      match s.find sid with
-      | some _ => (s.set sid false, "anyof ack | refused")   -- repeated open for a live stream
-      | none => (s.set sid false, "ack")
+      let s1 := if reuseRacy s.kind && s.seen.contains sid then { s with tainted := sid :: s.tainted } else s
+      let s2 := { s1 with seen := sid :: s1.seen }
+      match s2.find sid with
+      | some _ => (s2.set sid false, "anyof ack | refused")   -- repeated open for a live stream
+      | none => (s2.set sid false, "ack")
     | none => (s, "bad-op")
   | ["hs", "ping", sid, _] =>
     if s.kind = "" then (s, "bad-op") else
     match sid.toNat? with
     | some sid =>
-      if s.faulty then (s, "anyof pong 0 0 | nopong 0 0")
+      if s.faulty || s.tainted.contains sid then (s, "anyof pong 0 0 | nopong 0 0")
       else match s.find sid with
         | some used =>
           if s.kind == "shell" && used then (s, "nopong 0 0") else (s.set sid true, "pong 0 0")
@@ -55,6 +68,8 @@ structure Spec where
   kind : String := ""
   faulty : Bool := false
   acked : List (Nat × Bool) := []
+  seen : List Nat := []
+  tainted : List Nat := []
 
 def spec (s : Spec) (op out : List String) : Spec × String :=
   match op, out with
@@ -62,6 +77,8 @@ def spec (s : Spec) (op out : List String) : Spec × String :=
   | ["hs", "open", sid, _, _], [r] =>
     match sid.toNat? with
     | some sid =>
+      let s := if reuseRacy s.kind && s.seen.contains sid then { s with tainted := sid :: s.tainted } else s
+      let s := { s with seen := sid :: s.seen }
       if r = "ack" then ({ s with acked := (sid, false) :: s.acked.filter (·.1 != sid) }, "ok")
       else (s, "ok")   -- refused / noack: the previous handshake (if any) stays in force
     | none => (s, "ok")
@@ -79,7 +96,7 @@ def spec (s : Spec) (op out : List String) : Spec × String :=
       else if r = "pong" then (s', "ok")
       else match cur with
         | some used =>
-          if s.faulty || (s.kind == "shell" && used) then (s', "ok")
+          if s.faulty || s.tainted.contains sid || (s.kind == "shell" && used) then (s', "ok")
           else (s', "fail tunnel-ends-disagree after an acknowledged open")
         | none => (s', "ok")
     | none => (s, "ok")
